@@ -81,7 +81,7 @@ theorem run_ran_tail (w : Wrapper) (c : List Wrapper) (h : Handler) (req : Req)
 theorem optionalAuthW_decision (g : Handler) (req : Req) :
     optionalAuthW g req =
       (authDecision req.path req.cookie req.basic (authRequired req) req.glMode
-        (glProcessCookie req)).getD (g req) := by
+        (glProcessCookie req) req.addrBlocked).getD (g req) := by
   unfold optionalAuthW authDecision optionalAuthThird authenticated
   by_cases h1 : req.path = pLoginHtml
   · by_cases h2 : (authRequired req && req.cookie == .valid) = true <;> simp [h1, h2]
@@ -90,7 +90,7 @@ theorem optionalAuthW_decision (g : Handler) (req : Req) :
     · cases hu : authRequired req
       · simp [h1, h3]
       · by_cases hr : req.path = pRoot ∨ req.path = pIndex <;>
-          cases hg : (glProcessCookie req || sessionOrBasic req.cookie req.basic) <;>
+          cases hg : (glProcessCookie req || sessionOrBasic req.cookie req.basic req.addrBlocked) <;>
           simp [h1, h3, hr, hg]
 
 /-- Two requests that differ at most in the extra headers. -/
@@ -98,18 +98,18 @@ def sameButHeaders (a b : Req) : Prop :=
   a.path = b.path ∧ a.method = b.method ∧ a.cookie = b.cookie ∧ a.basic = b.basic ∧
   a.ctype = b.ctype ∧ a.contentLength = b.contentLength ∧ a.firstRun = b.firstRun ∧
   a.usersExist = b.usersExist ∧ a.glMode = b.glMode ∧ a.glCookie = b.glCookie ∧
-  a.glStat = b.glStat ∧ a.now = b.now
+  a.glStat = b.glStat ∧ a.now = b.now ∧ a.addrBlocked = b.addrBlocked ∧ a.authNil = b.authNil
 
 theorem apply_headers (w : Wrapper) (g : Handler) (a b : Req) (hs : sameButHeaders a b)
     (hg : g a = g b) : w.apply g a = w.apply g b := by
-  obtain ⟨h1, h2, h3, h4, h5, h6, h7, h8, h9, h10, h11, h12⟩ := hs
+  obtain ⟨h1, h2, h3, h4, h5, h6, h7, h8, h9, h10, h11, h12, h13, h14⟩ := hs
   cases w with
   | postInstall => simp only [Wrapper.apply, postInstallW, h1, h7, hg]
   | preInstall => simp only [Wrapper.apply, preInstallW, h7, hg]
   | optionalAuth =>
     simp only [Wrapper.apply]
     rw [optionalAuthW_decision, optionalAuthW_decision]
-    simp only [authRequired, glProcessCookie, glCheckToken, h1, h3, h4, h8, h9, h10, h11, h12, hg]
+    simp only [authRequired, glProcessCookie, glCheckToken, h1, h3, h4, h8, h9, h10, h11, h12, h13, h14, hg]
   | gzip => exact hg
   | ensure m => simp [Wrapper.apply, ensureW, ctypeOK, h2, h5, h6, hg]
 
